@@ -12,6 +12,7 @@ import Driver.Util
           SCRIPT = comma separated fields  c<0|1> o<hex> v<int> | w<e|s><n> | wnull  d<ms> t<0|1> | x1 (canceled)
           (`w...` = the value of rcmd_destroy is exec_destroy of that wait status)
       xd e<n> | xd s<n> | xd null                -> "<ret>"
+      cmd S K HEX                                -> "<hex of the command string handed to the transport>"  (`sentCommand`)
   `pdshmodel exit spec`
       adm S K REFUSED OUTCOMES EXIT              -> "ok" | "bad"
           OUTCOMES = comma separated  e<n> | s<n> | cf | to   ("-" = none)
@@ -67,11 +68,16 @@ def stepModel (fx : Fixes) (line : String) : String :=
     match tmo.toInt?, parseHosts fx (tmo.toInt?.getD 0) scripts with
     | some _, some hs =>
       let fl : Flags := { S := s ≠ "0", k := k ≠ "0" }
-      if fl.k && hs.any kFails then "noret exit 1"
-      else
-        let r := dshReturn fx fl hs
-        s!"ret {r} exit {exitStatus r}"
+      -- the exit status is `mainExit` itself (the definition the theorems of Props/C08.lean are about)
+      let e := mainExit fx fl (.started hs)
+      match dshResult fx fl hs with
+      | none => s!"noret exit {e}"
+      | some r => s!"ret {r} exit {e}"
     | _, _ => "bad-op"
+  | ["cmd", s, k, hx] =>
+    match Hex.decodeToChars hx with
+    | some c => Hex.encodeChars (sentCommand { S := s ≠ "0", k := k ≠ "0" } c)
+    | none => "bad-op"
   | ["xd", how] =>
     match parseWait how with
     | some w => s!"{execDestroy fx w}"
